@@ -114,7 +114,9 @@ def tmp_worktree(repo: str | Path = ".", ref: str = "HEAD") -> Iterator[Path]:
         RuntimeError: If the `git` executable is unavailable, or if it cannot create a worktree
     """
     assert_git_repo(repo)
-    repo_name = Path(repo).resolve().name
+    # The clean-up must address the same repository even if the working directory changed in between.
+    repo = str(Path(repo).resolve())
+    repo_name = Path(repo).name
     normref = _normalize(ref)  # Branch names can contain slashes.
     with TemporaryDirectory(prefix=f"{_WORKTREE_PREFIX}{repo_name}-{normref}-") as tmp_dir:
         location = os.path.join(tmp_dir, normref)  # noqa: PTH118
